@@ -51,6 +51,7 @@ type tracer struct {
 	events   []event
 	scribble bool
 	errSeen  error
+	pcBad    string // first snapshot whose program counter names no instruction of its own Scripts
 }
 
 func cpAll(s [][]byte) [][]byte {
@@ -63,6 +64,27 @@ func cpAll(s [][]byte) [][]byte {
 
 func (t *tracer) on(kind byte, s *interpreter.State) {
 	t.events = append(t.events, event{kind: kind, stack: cpAll(s.DataStack), alt: cpAll(s.AltStack), cond: append([]int{}, s.CondStack...), els: cpAll(s.ElseStack), sidx: s.ScriptIdx, oidx: s.OpcodeIdx})
+	// before a step and around an opcode the snapshot's program counter names the instruction
+	// concerned: it must exist in the snapshot's own script list, and State.Opcode() must return it
+	if (kind == 'S' || kind == 'O' || kind == 'o') && t.pcBad == "" {
+		if s.ScriptIdx < 0 || s.ScriptIdx >= len(s.Scripts) || s.OpcodeIdx < 0 || s.OpcodeIdx >= len(s.Scripts[s.ScriptIdx]) {
+			n := -1
+			if s.ScriptIdx >= 0 && s.ScriptIdx < len(s.Scripts) {
+				n = len(s.Scripts[s.ScriptIdx])
+			}
+			t.pcBad = fmt.Sprintf("event %d (%c): program counter %d:%d, but the snapshot holds %d scripts (script %d has %d instructions)", len(t.events)-1, kind, s.ScriptIdx, s.OpcodeIdx, len(s.Scripts), s.ScriptIdx, n)
+		} else {
+			func() {
+				defer func() {
+					if r := recover(); r != nil {
+						t.pcBad = fmt.Sprintf("event %d (%c): State.Opcode() panicked: %v", len(t.events)-1, kind, r)
+					}
+				}()
+				_ = s.Opcode()
+				_ = s.RemainingScript()
+			}()
+		}
+	}
 	if !t.scribble {
 		return
 	}
@@ -336,6 +358,9 @@ func check(ctx *pbt.Ctx, c Case) error {
 	if rec.seq() != ddSeq.String() {
 		return fmt.Errorf("debug.NewDebugger reported a different callback sequence: %q vs %q; %s", ddSeq.String(), rec.seq(), id)
 	}
+	if rec.pcBad != "" {
+		return fmt.Errorf("snapshot names an instruction it does not contain: %s; %s", rec.pcBad, id)
+	}
 	// (iii) lifecycle grammar; no events at all when validation fails before execution
 	seq := rec.seq()
 	if seq == "" {
@@ -456,6 +481,12 @@ func genCase(t *rapid.T) Case {
 		p = sgen.MutateVector(t, vectors, pool, excl)
 	default:
 		p = sgen.StackAware(t, flags, 10)
+	}
+	// pre-genesis pay-to-script-hash: the program becomes the redeem script, executed as a third script
+	if !flags.Has(interp.FlagAfterGenesis) && len(p.Lock) <= 520 && !strings.Contains(p.Level, "p2sh") && rapid.IntRange(0, 3).Draw(t, "p2sh") == 0 {
+		p = sgen.WrapP2SH(p, rapid.IntRange(0, 7).Draw(t, "p2sh_wrong") == 0)
+		p.Flags |= interp.FlagP2SH
+		p.Level += "+p2sh"
 	}
 	ctxv := libexec.TxCtx{Version: 2, LockTime: 100, Seq: 50, Amount: uint64(rapid.IntRange(0, 1).Draw(t, "amount"))}
 	return Case{Prog: libexec.Prog{Unlock: p.Unlock, Lock: p.Lock, Flags: uint32(p.Flags), Ctx: ctxv, Level: p.Level}, Ref: !withSig}
